@@ -59,6 +59,11 @@ def main():
         i = next_index(counter)
         if i >= len(obs):
             break
+        if os.environ.get("VERIF_FAIL_FAST") and os.path.exists(os.path.join(args.work, "VIOLATED")):
+            # development aid (seeded-change matrix): a violation has been reproduced, the remaining obligations are skipped
+            out.write(json.dumps({"name": obs[i][0], "status": "inconclusive", "inconclusive": ["skipped: fail-fast after a violation"], "queries": 0, "proved": 0, "paths": 0}) + "\n")
+            out.flush()
+            continue
         name, fn = obs[i]
         if args.only and args.only not in name:
             continue
@@ -69,6 +74,8 @@ def main():
             out.flush()
             continue
         core.S.reset()
+        from symfl import solve as _solve
+        _solve.xcheck_reset(args.tier == "thorough" or os.environ.get("VERIF_XCHECK") == "1", args.work)
         ob = Ob(name, args.prop, args.tier, args.seed, os.path.join(VERIF, "replays", args.prop))
         ob.deadline = time.time() + budget
         if args.deadline:
@@ -82,8 +89,14 @@ def main():
                 raise
             ob.error(f"{type(e).__name__}: {e}\n" + "".join(traceback.format_exc()[-1500:]))
         ob.r.wall = time.time() - t0
+        if _solve.XCHECK["enabled"]:
+            ob.r.meta["second_solver"] = dict(_solve.XCHECK["stats"])
+            for d in _solve.XCHECK["disagreements"]:
+                ob.r.errors.append("second solver disagreement: " + d)
         out.write(json.dumps(ob.r.to_json()) + "\n")
         out.flush()
+        if ob.r.violations and os.environ.get("VERIF_FAIL_FAST"):
+            open(os.path.join(args.work, "VIOLATED"), "w").close()
     out.close()
 
 
